@@ -496,5 +496,36 @@ func genC11(repo string) (string, error) {
 		return true
 	})
 	sb.WriteString("def readSeriesDataSingleField : String := " + strconv.Quote(single) + "\n")
+	fileFilterCalls := CallSeq(FindFunc(df, "dataFamily", "fileFilter"))
+	sb.WriteString("def familyFileFilterCalls : List String := " + LeanStrList(fileFilterCalls) + "\n")
+
+	// ---- which variant of the repaired statements the source has (selects the model variant)
+	has := func(xs []string, sub string) bool {
+		for _, x := range xs {
+			if strings.Contains(x, sub) {
+				return true
+			}
+		}
+		return false
+	}
+	flag := func(name string, v bool) {
+		fmt.Fprintf(&sb, "def %s : Bool := %v\n", name, v)
+	}
+	// write(): the assignment of buf[endOffset] is guarded by "delta > end"
+	flag("fixEndGuard", len(endAssigns) == 1 && strings.Contains(endAssigns[0], "byte(delta) > buf[endOffset] =>"))
+	// merge(): Aggregate(oldValue, newValue)
+	mArgs := aggArgs(mg)
+	flag("fixMergeOldFirst", len(mArgs) == 1 && mArgs[0] == "oldValue,newValue")
+	// NewMemoryDatabase: created time from the process-unique generator
+	flag("fixUniqueCreated", created == "nextCreatedTime()" && FindFunc(dbf, "", "nextCreatedTime") != nil)
+	// dataFamily.memoryFilter / fileFilter ignore a source's not-found
+	flag("fixNotFoundIgnored", has(CallSeq(FindFunc(df, "dataFamily", "memoryFilter")), "errors.Is") && has(fileFilterCalls, "errors.Is"))
+	// readSeriesData: the one-field fast path maps by query field index
+	flag("fixSingleFieldByIndex", single != "" && !strings.Contains(single, "seriesIdx, 0,") && strings.Contains(single, "seriesIdx, queryIdx,"))
+	// fieldAggregator.Aggregate: by the primitive series' own agg type
+	flag("fixAggregateByType", has(CallSeq(FindFunc(fa, "fieldAggregator", "Aggregate")), "aggregateBySlotOfType") && has(CallSeq(FindFunc(fa, "fieldAggregator", "Aggregate")), "pIt.AggType"))
+	// segment.GetDataFamilies: family range from CalcFamilyTime of the query start/end
+	sgc := CallSeq(FindFunc(sg, "segment", "GetDataFamilies"))
+	flag("fixMonthFamilyTime", has(sgc, "calc.CalcFamilyTime") && !has(sgc, "calc.CalcFamilyStartTime"))
 	return sb.String(), nil
 }
